@@ -320,6 +320,9 @@ class ForceMatrix:
                 self._verif_fallback = True
             xres, _ = scop.nnls(mprime, b, maxiter=kwargs.get("nnls_max_iter"))
 
+        # lmfit switches numpy's error handling off and only restores it when the fit succeeds
+        np.seterr(all='raise')
+
         if os.environ.get("FORSYS_VERIF") == "1":
             # verification hook: what was solved, the raw solution (with multiplier) and the path taken
             self._verif_record = {"mprime": np.array(mprime, dtype=float),
